@@ -76,6 +76,8 @@ type Out struct {
 	// StuckFlag (set by the worker to &simsched.Stuck) and OnStuck (set per case):
 	// see Watch.
 	StuckFlag *int32
+	// SimActive reports whether a simulated run is in progress (set by the worker)
+	SimActive func() bool
 	stuckMu   sync.Mutex
 	stuckFn   func()
 }
@@ -149,6 +151,11 @@ func (o *Out) Watch(limit time.Duration) {
 			b := atomic.LoadInt64(&o.began)
 			if b != 0 && time.Since(time.Unix(0, b)) > limit {
 				o.Note("TIMEOUT")
+				if o.SimActive != nil && !o.SimActive() {
+					// no simulated run is in progress: the scheduler cannot be what
+					// stalls, the code under test (or the workload) does not return
+					o.Note("TIMEOUT-OUTSIDE-SIMULATION")
+				}
 				buf := make([]byte, 1<<20)
 				os.Stderr.Write(buf[:runtime.Stack(buf, true)])
 				os.Exit(3)
